@@ -10,17 +10,16 @@
     RawQuery, String(), one capture / all captures, Header(n), Headers(), Cookie(n), Body(), client
     addresses), calls AddHeaderForUpstream / AddCookieForUpstream ([Emit]) and ends with [Allow] or
     [Fail kind].  [decode] (the body decoders) is arbitrary.
-      [serve_decision], [serve_proxy], [serve_envoy fixed_F1 fixed_F4]  = error kind | matched rule +
-    hand-over of the three entry points; [fixed_F1 = false] is grpcv3.RequestContext as pinned (the view
-    is rebuilt on every Request() call), [true] the repair fixes/C13-F1.diff; [fixed_F4 = false] is the
-    pinned URL construction of the Envoy context (escaped path in URL.Path, RawPath empty), [true] the
-    repair fixes/C13-F4.diff.  Every theorem holds for all four combinations; the guards of a repaired
-    finding vanish.
+      [serve_decision fx], [serve_proxy fx], [serve_envoy fx]  = error kind | matched rule + hand-over of
+    the three entry points.  [fx : fixes] says which recorded findings are repaired in the modelled tree
+    (one flag per finding with a repair: F1 = fix: b2286d8; F2, F3, F4, F6, F7 = candidates
+    fixes/C13-Fx.diff).  [pinned] = none, [repo_now] = F1 only (/repo today), [all_fixed] = all.  Every
+    theorem holds for every [fx]; the guard of a repaired finding is switched off.
 
     [wf_lreqb L]: header names are tokens, no Host / X-Forwarded-* / Forwarded line (C09), values
     without surrounding blanks, at most one Cookie line, a path that starts with "/" and is validly
-    encoded.  [guards_fire fixed L]: one of the recorded findings C13-F1..F7 applies to a read the
-    pipeline makes on L, to the encoded-slash check or to what it hands over (see C13/Proofs.v). *)
+    encoded.  [guards_fire fx L]: one of the findings C13-F1..F8 that is open in [fx] applies to a read
+    the pipeline makes on L, to the encoded-slash check or to what it hands over (see C13/Proofs.v). *)
 From HV Require Import Base.Prelude Base.GoUrl C09.Model C13.Model C13.Proofs.
 
 (** rule lookup reads the same path, method, scheme and host at all entry points: the same rule
@@ -34,49 +33,62 @@ Print Assumptions C13_same_lookup.
     lookup wrote the captures, the slash switch and the capture decoding of ruleImpl.Execute happened
     on the object the context handed out), outside the guards the HTTP contexts and the Envoy context
     answer alike — captures, headers, cookies, decoded body, URL parts *)
-Theorem C13_same_view : forall decode find fixed_F1 fixed_F4 L rl caps q,
+Theorem C13_same_view : forall decode find fx L rl caps q,
   wf_lreqb L = true -> find (lookup_of (build_http L)) = Some (rl, caps) ->
   g_F4_decision (r_slashes rl) L = false ->
-  guard_query decode fixed_F1 fixed_F4 (r_slashes rl) caps L q = false ->
+  guard_query decode fx (r_slashes rl) caps L q = false ->
   exists vh ve, mech_view find true (build_http L) = inr (rl, vh) /\
-                mech_view find fixed_F1 (build_envoy fixed_F4 (mk_envoy L)) = inr (rl, ve) /\
-                answer (acc_http decode L) vh q = answer (acc_envoy decode (mk_envoy L)) ve q.
+                mech_view find (fx_F1 fx) (build_envoy (fx_F4 fx) (mk_envoy L)) = inr (rl, ve) /\
+                answer (acc_http decode L) vh q = answer (acc_envoy decode fx (mk_envoy L)) ve q.
 Proof. exact same_view. Qed.
 Print Assumptions C13_same_view.
 
 (** same decision: for every rule set and every pipeline program the executor ends with the same
     error kind / matched rule and the same AddHeaderForUpstream / AddCookieForUpstream calls *)
-Theorem C13_same_decision : forall decode find fixed_F1 fixed_F4 L,
-  wf_lreqb L = true -> guards_fire decode find fixed_F1 fixed_F4 L = false ->
-  exec_http decode find L = exec_envoy decode find fixed_F1 fixed_F4 L.
+Theorem C13_same_decision : forall decode find fx L,
+  wf_lreqb L = true -> guards_fire decode find fx L = false ->
+  exec_http decode find L = exec_envoy decode find fx L.
 Proof. exact same_execution. Qed.
 Print Assumptions C13_same_decision.
 
 (** same hand-over: for every list of pipeline headers and cookies the three Finalize hand the same
-    header values and cookie values over, unless a header name was added twice (F3) or net/http
-    rewrites a cookie (F5) *)
-Theorem C13_same_upstream_headers : forall adds,
-  g_F3_adds adds = false -> g_F5_adds adds = false ->
-  finalize_decision adds = finalize_proxy adds /\ finalize_decision adds = finalize_envoy adds.
+    header values and cookie values over, unless a header name was added twice (F3, pinned code only)
+    or net/http rewrites a cookie (F5) *)
+Theorem C13_same_upstream_headers : forall fixed_F3 adds,
+  negb fixed_F3 && g_F3_adds adds = false -> g_F5_adds adds = false ->
+  finalize_decision fixed_F3 adds = finalize_proxy fixed_F3 adds /\
+  finalize_decision fixed_F3 adds = finalize_envoy adds.
 Proof. exact same_upstream. Qed.
 Print Assumptions C13_same_upstream_headers.
 
 (** the property: same decision, same matched rule, same hand-over at all three entry points *)
-Theorem C13_three_entry_points_agree : forall decode find fixed_F1 fixed_F4 L,
-  wf_lreqb L = true -> guards_fire decode find fixed_F1 fixed_F4 L = false ->
-  serve_decision decode find L = serve_proxy decode find L /\
-  serve_decision decode find L = serve_envoy decode find fixed_F1 fixed_F4 L.
+Theorem C13_three_entry_points_agree : forall decode find fx L,
+  wf_lreqb L = true -> guards_fire decode find fx L = false ->
+  serve_decision decode find fx L = serve_proxy decode find fx L /\
+  serve_decision decode find fx L = serve_envoy decode find fx L.
 Proof. exact three_entry_points_agree. Qed.
 Print Assumptions C13_three_entry_points_agree.
 
-(** after the repair of C13-F1 and C13-F4 no guard mentions captures or URL parts any more, and the
-    encoded-slash check rejects at all entry points alike *)
-Theorem C13_fixed_F1_F4_unguarded : forall decode s caps L n,
-  guard_query decode true true s caps L (QCapture n) = false /\ guard_query decode true true s caps L QCaptures = false /\
-  guard_query decode true true s caps L QPath = false /\ guard_query decode true true s caps L QRawPath = false /\
-  guard_query decode true true s caps L QUrl = false.
-Proof. intros. repeat split; reflexivity. Qed.
-Print Assumptions C13_fixed_F1_F4_unguarded.
+(** the tree as it is since fix: b2286d8 (C13-F1 repaired, the others open): the property with the
+    remaining guards only — captures are not guarded any more *)
+Theorem C13_current_tree_agree : forall decode find L,
+  wf_lreqb L = true -> guards_fire decode find repo_now L = false ->
+  serve_decision decode find repo_now L = serve_proxy decode find repo_now L /\
+  serve_decision decode find repo_now L = serve_envoy decode find repo_now L.
+Proof. intros decode find L. exact (three_entry_points_agree decode find repo_now L). Qed.
+Print Assumptions C13_current_tree_agree.
+
+Theorem C13_current_tree_captures_unguarded : forall decode s caps L n,
+  guard_query decode repo_now s caps L (QCapture n) = false /\ guard_query decode repo_now s caps L QCaptures = false.
+Proof. intros. split; reflexivity. Qed.
+Print Assumptions C13_current_tree_captures_unguarded.
+
+(** with every candidate repair applied only the cookie findings (C13-F5) and Headers() as a whole
+    (C13-F8) remain guarded, and the encoded-slash check rejects at all entry points alike *)
+Theorem C13_all_fixed_guards : forall decode s caps L q,
+  guard_query decode all_fixed s caps L q = g_F5_query L q || g_F8_query q.
+Proof. exact all_fixed_guards. Qed.
+Print Assumptions C13_all_fixed_guards.
 
 Theorem C13_fixed_F4_slash_check_agrees : forall find fixed_F1 L rl caps,
   wf_lreqb L = true -> find (lookup_of (build_http L)) = Some (rl, caps) ->
@@ -87,21 +99,32 @@ Proof. exact slash_check_agrees. Qed.
 Print Assumptions C13_fixed_F4_slash_check_agrees.
 
 (** the decision and the proxy service share requestcontext.RequestContext: no guard at all *)
-Theorem C13_decision_proxy_same_execution : forall decode find L,
-  s_err (serve_decision decode find L) = s_err (serve_proxy decode find L) /\
-  s_rule (serve_decision decode find L) = s_rule (serve_proxy decode find L) /\
-  forall adds, ho_headers (finalize_decision adds) = ho_headers (finalize_proxy adds).
+Theorem C13_decision_proxy_same_execution : forall decode find fx L,
+  s_err (serve_decision decode find fx L) = s_err (serve_proxy decode find fx L) /\
+  s_rule (serve_decision decode find fx L) = s_rule (serve_proxy decode find fx L) /\
+  forall adds, ho_headers (finalize_decision (fx_F3 fx) adds) = ho_headers (finalize_proxy (fx_F3 fx) adds).
 Proof. exact decision_proxy_same_execution. Qed.
 Print Assumptions C13_decision_proxy_same_execution.
 
-(** the two header accessors: a canonical name other than Host reads the same value *)
-Theorem C13_header_lookup_agrees : forall decode L n,
+(** the two header accessors: requestcontext's Header() with a canonical name other than Host reads
+    what Envoy's canonicalised header map holds under that name — for all header multisets *)
+Theorem C13_header_lookup_agrees : forall L k,
   forallb wf_hdr (l_hdrs L) = true ->
   (length (values "Cookie" (http_hdrs_wire L)) <= 1)%nat ->
-  canon n = n -> String.eqb n "Host" = false ->
-  a_header (acc_http decode L) n = a_header (acc_envoy decode (mk_envoy L)) n.
-Proof. exact header_agree. Qed.
+  canon k = k -> String.eqb k "Host" = false ->
+  header_http (http_hdrs L) (l_host L) k = assoc k (canonicalize_headers (envoy_wire_hdrs L)).
+Proof. exact header_map_agree. Qed.
 Print Assumptions C13_header_lookup_agrees.
+
+(** ... and Header(n) for ANY name n, under the guards of F2 and F6 as far as they are open *)
+Theorem C13_header_accessors_agree : forall fx L n,
+  wf_lreqb L = true ->
+  negb (fx_F2 fx) && g_F2_query (fx_F6 fx) L (QHeader n) = false ->
+  negb (fx_F6 fx) && g_F6_query (QHeader n) = false ->
+  header_http (http_hdrs L) (l_host L) n =
+  header_envoy fx (canonicalize_headers (envoy_wire_hdrs L)) (l_host L) n.
+Proof. exact header_agree. Qed.
+Print Assumptions C13_header_accessors_agree.
 
 (** the two cookie readers (net/http's and grpcv3's) agree on every plain Cookie line, for every name *)
 Theorem C13_cookie_readers_agree : forall n line,
@@ -111,88 +134,106 @@ Theorem C13_cookie_readers_agree : forall n line,
 Proof. exact cookie_line_agree. Qed.
 Print Assumptions C13_cookie_readers_agree.
 
-(** the findings: each guard is needed (a well-formed request on which it fires and the entry points differ) *)
-Theorem C13_F1_refuted :
+(** the findings: each guard is needed (a well-formed request on which it fires and the entry points
+    differ), and the (candidate) repair removes the difference on the same request.
+    C13-F1 is repaired (fix: b2286d8); its witness documents the pinned context. *)
+Theorem C13_F1_pinned_refuted :
   wf_lreqb w1_req = true /\
-  guards_fire w_decode w1_find false false w1_req = true /\
-  guards_fire w_decode w1_find true false w1_req = false /\
-  serve_decision w_decode w1_find w1_req <> serve_envoy w_decode w1_find false false w1_req /\
-  serve_decision w_decode w1_find w1_req = serve_envoy w_decode w1_find true false w1_req.
+  guards_fire w_decode w1_find pinned w1_req = true /\
+  guards_fire w_decode w1_find repo_now w1_req = false /\
+  serve_decision w_decode w1_find pinned w1_req <> serve_envoy w_decode w1_find pinned w1_req /\
+  serve_decision w_decode w1_find repo_now w1_req = serve_envoy w_decode w1_find repo_now w1_req.
 Proof. exact F1_refuted. Qed.
-Print Assumptions C13_F1_refuted.
+Print Assumptions C13_F1_pinned_refuted.
 
-Theorem C13_F1_refuted_decision :
-  s_err (serve_decision w_decode w1b_find (w_req "GET" "/c1/admin" [] "")) = None /\
-  s_err (serve_envoy w_decode w1b_find false false (w_req "GET" "/c1/admin" [] "")) = Some EInternal.
+Theorem C13_F1_pinned_refuted_decision :
+  s_err (serve_decision w_decode w1b_find pinned (w_req "GET" "/c1/admin" [] "")) = None /\
+  s_err (serve_envoy w_decode w1b_find pinned (w_req "GET" "/c1/admin" [] "")) = Some EInternal /\
+  s_err (serve_envoy w_decode w1b_find repo_now (w_req "GET" "/c1/admin" [] "")) = None.
 Proof. exact F1_refuted_decision. Qed.
-Print Assumptions C13_F1_refuted_decision.
+Print Assumptions C13_F1_pinned_refuted_decision.
 
-Theorem C13_F2_refuted : forall fixed1 fixed4,
-  wf_lreqb w2_req = true /\ guards_fire w_decode w2_find fixed1 fixed4 w2_req = true /\
-  existsb (g_F2_query w2_req) [QHeader "x-role"] = true /\
-  s_err (serve_decision w_decode w2_find w2_req) = None /\
-  s_err (serve_envoy w_decode w2_find fixed1 fixed4 w2_req) = Some EAuthz.
+Theorem C13_F2_refuted :
+  wf_lreqb w2_req = true /\ guards_fire w_decode w2_find repo_now w2_req = true /\
+  existsb (g_F2_query false w2_req) [QHeader "x-role"] = true /\
+  s_err (serve_decision w_decode w2_find repo_now w2_req) = None /\
+  s_err (serve_envoy w_decode w2_find repo_now w2_req) = Some EAuthz /\
+  guards_fire w_decode w2_find (set_F2 true repo_now) w2_req = false /\
+  s_err (serve_envoy w_decode w2_find (set_F2 true repo_now) w2_req) = None.
 Proof. exact F2_refuted. Qed.
 Print Assumptions C13_F2_refuted.
 
 Theorem C13_F3_refuted :
   let adds := [AddHeader "X-Out" "one"; AddHeader "x-out" "two"] in
   g_F3_adds adds = true /\ g_F5_adds adds = false /\
-  finalize_decision adds = finalize_proxy adds /\
-  ho_headers (finalize_decision adds) = [("X-Out", "one")]%string /\
-  ho_headers (finalize_envoy adds) = [("X-Out", "one,two")]%string.
+  finalize_decision false adds = finalize_proxy false adds /\
+  ho_headers (finalize_decision false adds) = [("X-Out", "one")]%string /\
+  ho_headers (finalize_envoy adds) = [("X-Out", "one,two")]%string /\
+  finalize_decision true adds = finalize_envoy adds /\ finalize_proxy true adds = finalize_envoy adds.
 Proof. exact F3_refuted. Qed.
 Print Assumptions C13_F3_refuted.
 
-Theorem C13_F4_refuted : forall fixed1,
-  wf_lreqb w4_req = true /\ g_F4_decision SOff w4_req = true /\ guards_fire w_decode w4_find fixed1 false w4_req = true /\
-  s_err (serve_decision w_decode w4_find w4_req) = Some EArgument /\
-  s_err (serve_envoy w_decode w4_find fixed1 false w4_req) = None /\
-  s_err (serve_envoy w_decode w4_find fixed1 true w4_req) = Some EArgument.
+Theorem C13_F4_refuted :
+  wf_lreqb w4_req = true /\ g_F4_decision SOff w4_req = true /\ guards_fire w_decode w4_find repo_now w4_req = true /\
+  s_err (serve_decision w_decode w4_find repo_now w4_req) = Some EArgument /\
+  s_err (serve_envoy w_decode w4_find repo_now w4_req) = None /\
+  s_err (serve_envoy w_decode w4_find (set_F4 true repo_now) w4_req) = Some EArgument.
 Proof. exact F4_refuted. Qed.
 Print Assumptions C13_F4_refuted.
 
-Theorem C13_F4_refuted_view : forall fixed1,
+Theorem C13_F4_refuted_view :
   wf_lreqb w4b_req = true /\ g_F4_query SOff w4b_req QPath = true /\
-  s_handover (serve_decision w_decode w4b_find w4b_req) = Some {| ho_headers := [("X-Path", "/c4/a b")]%string; ho_cookies := [] |} /\
-  s_handover (serve_envoy w_decode w4b_find fixed1 false w4b_req) = Some {| ho_headers := [("X-Path", "/c4/a%20b")]%string; ho_cookies := [] |} /\
-  s_handover (serve_envoy w_decode w4b_find fixed1 true w4b_req) = Some {| ho_headers := [("X-Path", "/c4/a b")]%string; ho_cookies := [] |}.
+  s_handover (serve_decision w_decode w4b_find repo_now w4b_req) = Some {| ho_headers := [("X-Path", "/c4/a b")]%string; ho_cookies := [] |} /\
+  s_handover (serve_envoy w_decode w4b_find repo_now w4b_req) = Some {| ho_headers := [("X-Path", "/c4/a%20b")]%string; ho_cookies := [] |} /\
+  s_handover (serve_envoy w_decode w4b_find (set_F4 true repo_now) w4b_req) = Some {| ho_headers := [("X-Path", "/c4/a b")]%string; ho_cookies := [] |}.
 Proof. exact F4_refuted_view. Qed.
 Print Assumptions C13_F4_refuted_view.
 
-Theorem C13_F5_refuted : forall fixed1 fixed4,
+Theorem C13_F5_refuted :
   wf_lreqb w5_req = true /\ g_F5_query w5_req (QCookie "sid") = true /\
-  guards_fire w_decode w5_find fixed1 fixed4 w5_req = true /\
-  s_err (serve_decision w_decode w5_find w5_req) = None /\
-  s_err (serve_envoy w_decode w5_find fixed1 fixed4 w5_req) = Some EAuthz.
+  guards_fire w_decode w5_find all_fixed w5_req = true /\
+  s_err (serve_decision w_decode w5_find all_fixed w5_req) = None /\
+  s_err (serve_envoy w_decode w5_find all_fixed w5_req) = Some EAuthz /\
+  s_err (serve_envoy w_decode w5_find repo_now w5_req) = Some EAuthz.
 Proof. exact F5_refuted. Qed.
 Print Assumptions C13_F5_refuted.
 
-Theorem C13_F5_refuted_handover :
+Theorem C13_F5_refuted_handover : forall fixed3,
   let adds := [AddCookie "pc1" "v 1"] in
   g_F5_adds adds = true /\ g_F3_adds adds = false /\
-  finalize_decision adds = finalize_proxy adds /\
-  finalize_decision adds <> finalize_envoy adds.
+  finalize_decision fixed3 adds = finalize_proxy fixed3 adds /\
+  finalize_decision fixed3 adds <> finalize_envoy adds.
 Proof. exact F5_refuted_handover. Qed.
 Print Assumptions C13_F5_refuted_handover.
 
-Theorem C13_F6_refuted : forall fixed1 fixed4,
-  wf_lreqb w6_req = true /\ g_F6_query (QHeader "Host") = true /\ guards_fire w_decode w6_find fixed1 fixed4 w6_req = true /\
-  s_err (serve_decision w_decode w6_find w6_req) = None /\
-  s_err (serve_envoy w_decode w6_find fixed1 fixed4 w6_req) = Some EAuthz.
+Theorem C13_F6_refuted :
+  wf_lreqb w6_req = true /\ g_F6_query (QHeader "Host") = true /\ guards_fire w_decode w6_find repo_now w6_req = true /\
+  s_err (serve_decision w_decode w6_find repo_now w6_req) = None /\
+  s_err (serve_envoy w_decode w6_find repo_now w6_req) = Some EAuthz /\
+  guards_fire w_decode w6_find (set_F6 true repo_now) w6_req = false /\
+  s_err (serve_envoy w_decode w6_find (set_F6 true repo_now) w6_req) = None.
 Proof. exact F6_refuted. Qed.
 Print Assumptions C13_F6_refuted.
 
-Theorem C13_F7_refuted : forall fixed1 fixed4,
-  wf_lreqb w7_req = true /\ g_F7_query w_decode w7_req QBody = true /\ guards_fire w_decode w7_find fixed1 fixed4 w7_req = true /\
-  serve_decision w_decode w7_find w7_req <> serve_envoy w_decode w7_find fixed1 fixed4 w7_req.
+Theorem C13_F7_refuted :
+  wf_lreqb w7_req = true /\ g_F7_query w_decode w7_req QBody = true /\ guards_fire w_decode w7_find repo_now w7_req = true /\
+  serve_decision w_decode w7_find repo_now w7_req <> serve_envoy w_decode w7_find repo_now w7_req /\
+  serve_decision w_decode w7_find repo_now w7_req = serve_envoy w_decode w7_find (set_F7 true repo_now) w7_req.
 Proof. exact F7_refuted. Qed.
 Print Assumptions C13_F7_refuted.
 
+Theorem C13_F8_refuted :
+  g_F8_query QHeaders = true /\ guards_fire w_decode w8_find all_fixed w6_req = true /\
+  s_handover (serve_decision w_decode w8_find all_fixed w6_req) = Some {| ho_headers := [("X-Host", "a.example.com")]%string; ho_cookies := [] |} /\
+  s_handover (serve_envoy w_decode w8_find all_fixed w6_req) = Some {| ho_headers := [("X-Host", "")]%string; ho_cookies := [] |}.
+Proof. exact F8_refuted. Qed.
+Print Assumptions C13_F8_refuted.
+
 (** the hypotheses of the main theorem are satisfiable by a non-trivial request and pipeline *)
 Theorem C13_nonvacuous :
-  wf_lreqb nv_req = true /\ guards_fire w_decode nv_find true true nv_req = false /\ guards_fire w_decode nv_find true false nv_req = false /\
-  serve_envoy w_decode nv_find true true nv_req =
+  wf_lreqb nv_req = true /\ guards_fire w_decode nv_find repo_now nv_req = false /\
+  guards_fire w_decode nv_find all_fixed nv_req = false /\
+  serve_envoy w_decode nv_find repo_now nv_req =
     {| s_err := None; s_rule := "files";
        s_handover := Some {| ho_headers := [("X-User", "report.pdf"); ("X-Path", "/files/report.pdf");
                                             ("X-Url", "https://a.example.com:8443/files/report.pdf?v=2")]%string;
@@ -201,8 +242,8 @@ Proof. exact nonvacuous. Qed.
 Print Assumptions C13_nonvacuous.
 
 Theorem C13_nonvacuous_pinned :
-  guards_fire w_decode nv2_find false false nv_req = false /\
-  s_handover (serve_envoy w_decode nv2_find false false nv_req) =
+  guards_fire w_decode nv2_find pinned nv_req = false /\
+  s_handover (serve_envoy w_decode nv2_find pinned nv_req) =
     Some {| ho_headers := [("X-Q", "v=2")]%string; ho_cookies := [("c", "application/json")]%string |}.
 Proof. exact nonvacuous_pinned. Qed.
 Print Assumptions C13_nonvacuous_pinned.
